@@ -199,31 +199,8 @@ def o4(run, project):
     from .. import paths
     from .outcomes import check_table, stores
     from .c04 import named_range_contains
-    names = (f"f'{{self._basename}}{{self._sep}}{{int({num}) - self._start:0{{self._index_nibbles}}x}}'",
-             f"f'{{self._basename}}{{self._sep}}{{{num} - self._start:0{{self._index_nibbles}}x}}'")
-    ps_ = paths.summarise(mod, f)
-    atoms_ = {a_ for p in ps_ for a_, _v, _ in p.cond}
-    rows_ = [({f"{num} in self": True}, "member")] if f"{num} in self" in atoms_ else \
-        [({f"{num} < self._start": False, f"{num} < self._end": True}, "member")]
-    members = [f"self._type(value={num}, name={nm})" for nm in names]
-
-    def observe(p):
-        t = p.value_text() if p.end == "return" else p.end
-        if t in members:
-            return "member"
-        if p.end in ("return", "raise") and p.value is not None and (call_name(p.value) or "") == "ValueError":
-            return "no member"
-        return t
-    n = check_table(run, "O4", mod, f, "NamedRange.by_number", rows_, observe, "no member",
-                    "a number inside [start, end) gives self._type(value=number, name=<basename><sep><offset from start as hex, padded "
-                    "with zeros to index_nibbles digits>), any other number gives no member", "by_number member", ps=ps_)
-    run.require(n >= 2, "O4: NamedRange.by_number has no two outcomes")
-    n = check_table(run, "O4", mod, ini, "NamedRange.__init__",
-                    [({"index_nibbles is None": True}, "ceil((self._end - self._start - 1).bit_length() / 4.0)"),
-                     ({"index_nibbles is None": False}, "index_nibbles")],
-                    lambda q: stores(q).get("self._index_nibbles"), None, "offset padded to enough nibbles for the span",
-                    "index_nibbles", skip=lambda q: q.end == "raise")
-    run.require(n >= 2, "O4: NamedRange.__init__ has no two outcomes")
+    from . import namedrange
+    namedrange.check(run, "O4", mod)
     sep = [d for a, d in zip(ini.args.args[-len(ini.args.defaults):], ini.args.defaults) if a.arg == "sep"]
     run.ob("O4", len(sep) == 1 and isinstance(sep[0], ast.Constant) and sep[0].value == ".", "separator is '.'",
            "default separator changed", module=mod, node=ini, func="NamedRange.__init__", construct="sep default")
@@ -263,4 +240,4 @@ def o4(run, project):
     ok = st is not None and [norm(s) for s in walk_no_nested(st) if isinstance(s, ast.Return)] == ["return str(self._value)"]
     run.ob("O4", ok, "_INT text form is the wrapped value's", "_INT.__str__ no longer returns str(self._value)", module=base,
            node=st or base.tree, func="_INT.__str__", construct="_INT.__str__")
-    named_range_contains(run, "O4", mod)
+    pass  # (membership is part of namedrange.check above)
